@@ -444,6 +444,25 @@ def _on_step(kernel, act, op):
         w.note_probe("fault_fired")
 
 
+def _invoke(mod, gaf, gfa, fasta, out, cores):
+    """run the subcommand the way the command line does: parse the arguments with the module's own
+    add_arguments() and call its main(args); fall back to run_realign() if that interface is gone"""
+    if hasattr(mod, "add_arguments") and hasattr(mod, "main"):
+        import argparse
+
+        parser = argparse.ArgumentParser(prog="gaftools realign")
+        mod.add_arguments(parser)
+        argv = [gaf, gfa, fasta, "-c", str(cores)]
+        if out is not None:
+            argv += ["-o", out]
+        try:
+            args = parser.parse_args(argv)
+        except SystemExit:
+            raise SimUnsupported("command line of realign changed: cannot build the arguments")
+        return mod.main(args)
+    return mod.run_realign(gaf, gfa, fasta, output=out, cores=cores)
+
+
 def make_policy(cfg, rng):
     pol = cfg["policy"]
     if pol["name"] == "benign":
@@ -557,7 +576,7 @@ def run_sim(repo, paths, cfg, decisions=None, keep_trace=True):
     def parent_body(task):
         try:
             try:
-                mod.run_realign(paths["gaf"], paths["gfa"], paths["fasta"], output=None if to_stdout else out, cores=cfg["cores"])
+                _invoke(mod, paths["gaf"], paths["gfa"], paths["fasta"], None if to_stdout else out, cfg["cores"])
                 world.outcome = ["returned", 0]
             except SystemExit as e:
                 c = e.code
